@@ -7,6 +7,7 @@ World *make_world_si();
 World *make_world_so();
 World *make_world_p();
 World *make_world_i();
+World *make_world_k();
 World *make_world(const std::string &name) {
   if (name == "Q") return make_world_q();
   if (name == "H") return make_world_h();
@@ -15,6 +16,7 @@ World *make_world(const std::string &name) {
   if (name == "SO") return make_world_so();
   if (name == "P") return make_world_p();
   if (name == "I") return make_world_i();
+  if (name == "K") return make_world_k();
   return nullptr;
 }
 }  // namespace sim
